@@ -130,6 +130,27 @@ void with_presentations(const Eigen::Matrix<S, Eigen::Dynamic, Eigen::Dynamic, F
         Eigen::Ref<const PM> ref(P + Z);
         fn(ref, "expression");
     }
+    // The same objects handed to the wrapper's constructor AS THEY ARE (not through a Ref of the caller): now the wrapper's own Ref member has to bind in place
+    // (block, strided map) or to evaluate and OWN a copy (expression, map with an inner stride) that must live as long as the wrapper does.  The temporaries die when
+    // fn returns; the wrapper is built and used inside fn.
+    {
+        PM big = PM::Constant(n + 3, m + 2, S(7));
+        big.block(2, 1, n, m) = P;
+        fn(big.block(2, 1, n, m), "block/direct");
+    }
+    {
+        const bool rowmajor = (Flags & Eigen::RowMajorBit) != 0;
+        const Eigen::Index inner = rowmajor ? m : n, outer = rowmajor ? n : m, os = 2 * inner + 5;
+        std::vector<S> buf((size_t) (os * outer + 3), S(7));
+        Eigen::Map<PM, 0, Eigen::Stride<Eigen::Dynamic, 2>> mp(buf.data() + 3, n, m, Eigen::Stride<Eigen::Dynamic, 2>(os, 2));
+        mp = P;
+        fn(mp, "map-with-inner-stride/direct");
+    }
+    {
+        const PM Z = PM::Zero(n, m);
+        fn(P + Z, "expression/direct");
+        fn(S(2) * P - P, "expression-2/direct");
+    }
 }
 // sparse: uncompressed storage (free slots after every inner vector), a Map of the compressed arrays, an inner panel of a wider matrix, an expression
 template <class S, int Flags, class SI, class Fn>
@@ -170,6 +191,13 @@ void with_presentations(const Eigen::SparseMatrix<S, Flags, SI>& P, Fn fn)
     {
         Eigen::Ref<const SM> ref(P * S(1));
         fn(ref, "expression");
+    }
+    // handed over as they are (see the dense overload): the wrapper's own Ref member evaluates and owns the copy
+    {
+        fn(P * S(1), "expression/direct");
+        SM U = P;
+        U.reserve(Eigen::Matrix<SI, Eigen::Dynamic, 1>::Constant(U.outerSize(), SI(2)));
+        fn(U, U.isCompressed() ? "compressed-copy/direct" : "uncompressed/direct");
     }
 }
 
